@@ -19,6 +19,7 @@ typedef spif_ustr_t obj_t;
 # define STRCLS SPIF_STRCLASS_VAR(ustr)
 # define CLASSNAME "!spif_ustr_t!"
 # define NEW_TABLE() ((obj_t) SPIF_USTR_NEW(ustr))
+# define IS_MY_CLASS(o) SPIF_OBJ_IS_USTR(o)
 #else
 # define CN "str"
 # define F(n) spif_str_##n
@@ -26,6 +27,7 @@ typedef spif_str_t obj_t;
 # define STRCLS SPIF_STRCLASS_VAR(str)
 # define CLASSNAME "!spif_str_t!"
 # define NEW_TABLE() ((obj_t) SPIF_STR_NEW(str))
+# define IS_MY_CLASS(o) SPIF_OBJ_IS_STR(o)
 #endif
 typedef spif_int64_t idx_t;
 
